@@ -287,7 +287,17 @@ def _names_in(f) -> set[str]:
 
 # ------------------------------------------------------------------ symbolic values of locals
 class _Fold(ast.NodeTransformer):
-    """x + 0, 0 + x, x - 0, x * 1, 1 * x -> x (after a known local was substituted)"""
+    """x + 0, 0 + x, x - 0, x * 1, 1 * x -> x (after a known local was substituted);
+    Record(field=v, ..).field -> v for a record built with keywords by a class-like callee"""
+
+    def visit_Attribute(self, node):
+        self.generic_visit(node)
+        v = node.value
+        if isinstance(v, ast.Call) and isinstance(v.func, ast.Name) and v.func.id[:1].isupper() and not v.args:
+            for k in v.keywords:
+                if k.arg == node.attr:
+                    return k.value
+        return node
 
     def visit_BinOp(self, node):
         self.generic_visit(node)
@@ -323,6 +333,29 @@ def _names_of(text: str) -> frozenset:
             r = frozenset(re.findall(r'[A-Za-z_]\w*', text))
         if len(_NAMES_CACHE) < 20000:
             _NAMES_CACHE[text] = r
+    return r
+
+
+_CALLFREE_CACHE: dict[str, bool] = {}
+
+
+def _call_free(text: str) -> bool:
+    """no call in the expression text, except records built with keywords by a class-like callee
+    (`Window(start=a, end=b)`: a NamedTuple / dataclass display, as good as a tuple)"""
+    r = _CALLFREE_CACHE.get(text)
+    if r is None:
+        if '(' not in text:
+            r = True
+        else:
+            try:
+                tree = ast.parse(text, mode='eval')
+                r = all(isinstance(n.func, ast.Name) and n.func.id[:1].isupper() and not n.args
+                        and all(k.arg for k in n.keywords)
+                        for n in ast.walk(tree) if isinstance(n, ast.Call))
+            except SyntaxError:
+                r = False
+        if len(_CALLFREE_CACHE) < 20000:
+            _CALLFREE_CACHE[text] = r
     return r
 
 
@@ -383,7 +416,7 @@ def sym_values(max_len: int = 200, subst_calls: bool = True):
                     use = vals0 if simultaneous else vals
                     if not subst_calls:
                         # locals that hold the result of a call (`moof = self.find_atom(..)`) stay names
-                        use = {k: v for k, v in use.items() if '(' not in v}
+                        use = {k: v for k, v in use.items() if _call_free(v)}
                     text = ast.unparse(_sub(val, use))
                 except Exception:       # noqa: BLE001 - not representable, drop the value
                     text = None
@@ -403,7 +436,7 @@ def sym_values(max_len: int = 200, subst_calls: bool = True):
         (`moof = self.find_atom(..)`) as names and resolves only arithmetic / attribute copies"""
         vals = _vals(state[2])
         if not calls or not subst_calls:
-            vals = {k: v for k, v in vals.items() if '(' not in v}
+            vals = {k: v for k, v in vals.items() if _call_free(v)}
         return _sub(e, vals)
 
     def decide(test: ast.AST, facts):
